@@ -151,6 +151,18 @@ func (db *DB) reconstructSSTables() error {
 				return err
 			}
 
+			// the table writer creates the metadata file when it opens and fills it when it closes: a table with
+			// an empty metadata file was still being written. Its index and data files may well be complete
+			// already, it would then load as a legacy table without metadata and mis-parse its values.
+			if hasEmptyMetadata(p) {
+				log.Printf("found unfinished sstable to be deleted in %v", p)
+				err = os.RemoveAll(p)
+				if err != nil {
+					return err
+				}
+				continue
+			}
+
 			reader, err := sstables.NewSSTableReader(
 				sstables.ReadBasePath(p),
 				sstables.ReadWithKeyComparator(db.cmp),
@@ -185,6 +197,12 @@ func (db *DB) reconstructSSTables() error {
 func isUnfinishedTable(tablePath string) bool {
 	info, err := os.Stat(filepath.Join(tablePath, sstables.MetaFileName))
 	return os.IsNotExist(err) || (err == nil && info.Size() == 0)
+}
+
+// hasEmptyMetadata tells whether the table's metadata file exists but has not been written yet.
+func hasEmptyMetadata(tablePath string) bool {
+	info, err := os.Stat(filepath.Join(tablePath, sstables.MetaFileName))
+	return err == nil && info.Size() == 0
 }
 
 func (db *DB) replayAndSetupWriteAheadLog() error {
